@@ -29,8 +29,9 @@ def make_specs(ctx: Ctx, n):
         int_init = i % 3 == 1
         init = qinit(gen.rand_initial_states(rng, m, na, integer=int_init))
         target = "solve_and_simulate" if i % 2 else "simulate"
-        plan = [{"op": "simulate", "target": target, "init": init, "seed": rng.randrange(10**6), "vsrc": "own", "int_init": int_init}]
-        label = label + ("; integer-typed initial states" if int_init else "")
+        plan = [{"op": "simulate", "target": target, "init": init, "seed": rng.randrange(10**6), "vsrc": "own", "int_init": int_init,
+                 "np_init": i % 4 == 2}]
+        label = label + ("; integer-typed initial states" if int_init else "") + ("; numpy initial states" if i % 4 == 2 else "")
         specs.append(mk_spec(i, m, ["c03"], plan, label=label + ("; float64" if i % 5 == 4 else ""), x64=i % 5 == 4))
     return specs
 
